@@ -58,6 +58,20 @@ class Struct(object):
         self.fields = fields      # field name -> value (int term, Ptr, Struct ...)
 
 
+class Cx(object):
+    """A C99 complex value as a pair of real values (exact arithmetic on the two components)."""
+
+    def __init__(self, re, im):
+        self.re, self.im = re, im
+
+    def __repr__(self):
+        return "Cx(%s, %s)" % (self.re, self.im)
+
+
+def as_cx(v):
+    return v if isinstance(v, Cx) else Cx(v, 0)
+
+
 class Ev(object):
     __slots__ = ("kind", "arr", "idx", "op", "val", "guards", "qvars", "par", "seq", "fn", "extra", "phase", "level", "outer", "par_extra")
 
@@ -114,6 +128,23 @@ def cdiv_int(a, b):
     return tm.mk_fn("idiv", tm.lift(a), tm.lift(b))
 
 
+def closed_trunc(v):
+    """(int) of a closed real term (no variables, e.g. sqrt(24) + 1e-7): evaluated with 60 digits; None when it is within 1e-30 of an integer."""
+    t = tm.lift(v)
+    if tm.free_vars(t):
+        return None
+    try:
+        import mpmath
+        mp = mpmath.mp.clone()
+        mp.dps = 60
+        x = tm.evaluate(t, {}, mp)
+    except Exception:
+        return None
+    if abs(x - mp.nint(x)) < mp.mpf(10) ** -30:
+        return None
+    return int(mp.floor(x)) if x >= 0 else -int(mp.floor(-x))
+
+
 def as_int(v):
     if isinstance(v, T) and v.op == "c" and v.args[0].denominator == 1:
         return int(v.args[0])
@@ -129,6 +160,9 @@ class CSym(object):
         # footprint mode (C10): only the read / write *sets* matter.  Values of double locations are never forwarded (a read of a location
         # written earlier yields an unconstrained real), loop-carried real scalars with a non-additive update are havocked.
         self.footprint = footprint
+        self.literal_names = {}     # name -> (float value, exact term): decimal literals read as the irrational number they round (assumption, opt-in)
+        self.literals_used = set()
+        self.global_arrays = {}
         self.hyps = []                        # the function's `requires` (used when separating a read from an earlier write)
         self.private_names = set()            # scalars / pointers declared inside a parallel region or named in private-like clauses
         self.in_single = 0
@@ -296,10 +330,21 @@ class CSym(object):
                 env[name] = self.coerce(v, ty)
             else:
                 env[name] = Undef(name)
+                base = ty.replace("const ", "").strip()
+                for t_ in self.tus:
+                    b2 = t_.typedefs.get(base, base).replace("struct ", "")
+                    if "*" not in base and b2 in t_.structs:
+                        # a struct object with indeterminate fields
+                        env[name] = Struct(b2, {f: Undef(f) for f, _ in t_.structs[b2]})
+                        break
 
     def coerce(self, v, ty):
         if isinstance(v, (Ptr, Struct, Undef)) or v is None:
             return v
+        if "_Complex" in ty and "*" not in ty:
+            return as_cx(v)
+        if isinstance(v, Cx):
+            return v.re if "*" not in ty else v
         if isinstance(v, T) and v.is_bool:
             # C: the value of a comparison / logical expression is the int 1 or 0
             return tm.mk_ite(v, tm.ONE, tm.ZERO)
@@ -834,7 +879,16 @@ class CSym(object):
         return int(n["value"])
 
     def e_FloatingLiteral(self, n, env, tu):
+        if self.literal_names:
+            f = float(n["value"])
+            for nm, (val, term) in self.literal_names.items():
+                if abs(f - val) <= 4e-16 * abs(val):
+                    self.literals_used.add(nm)
+                    return term
         return Q(n["value"]) if "e" not in n["value"].lower() and "inf" not in n["value"] else Q(repr(float(n["value"])))
+
+    def e_ImaginaryLiteral(self, n, env, tu):
+        return Cx(0, self.rvalue(n["inner"][0], env, tu))
 
     def e_CharacterLiteral(self, n, env, tu):
         return int(n["value"])
@@ -851,6 +905,8 @@ class CSym(object):
         if ck == "LValueToRValue":
             return self.load(self.lvalue(inner, env, tu), env)
         if ck in ("ArrayToPointerDecay",):
+            if inner.get("kind") == "DeclRefExpr" and inner["referencedDecl"]["name"] not in env:
+                return self._global_array(inner["referencedDecl"]["name"])
             return self.rvalue(inner, env, tu) if inner.get("kind") != "DeclRefExpr" else env[inner["referencedDecl"]["name"]]
         if ck == "FunctionToPointerDecay":
             return ("fn", _strip(inner)["referencedDecl"]["name"])
@@ -859,10 +915,34 @@ class CSym(object):
             v2 = as_int(v)
             if isinstance(v2, (int, Q)):
                 return int(v2)
+            c_ = closed_trunc(v)
+            if c_ is not None:
+                return c_
             return tm.mk_fn("trunc", tm.lift(v))
         if ck == "NullToPointer":
             return None
+        if ck in ("FloatingRealToComplex", "IntegralRealToComplex"):
+            return as_cx(v)
+        if ck in ("FloatingComplexToReal", "IntegralComplexToReal"):
+            return v.re if isinstance(v, Cx) else v
         return v
+
+    def _global_array(self, name):
+        """A file-scope const array with an initialiser list: an array whose elements are the evaluated initialisers (reads at concrete indices only)."""
+        if name in self.global_arrays:
+            return Ptr(self.global_arrays[name])
+        for t_ in self.tus:
+            g = t_.globals.get(name)
+            if g is None or not g.get("inner") or g["inner"][0].get("kind") != "InitListExpr":
+                continue
+            if "const" not in g.get("type", {}).get("qualType", ""):
+                raise CUnsupported("global array %s is not const" % name)
+            vals = [self.rvalue(e, {}, t_) for e in g["inner"][0].get("inner", [])]
+            arr = Arr(name, "int" if is_int_type(g["type"]["qualType"].split("[")[0]) else "double", tm.const(len(vals)), origin="global")
+            arr.const_values = vals
+            self.global_arrays[name] = arr
+            return Ptr(arr)
+        raise CUnsupported("unknown global array %s" % name)
 
     def e_CStyleCastExpr(self, n, env, tu):
         ty = n["type"]["qualType"]
@@ -896,6 +976,9 @@ class CSym(object):
                 return int(v2)
             if isinstance(v2, T) and _is_int_term(v2):
                 return v2
+            c_ = closed_trunc(v2)
+            if c_ is not None:
+                return c_
             return tm.mk_fn("trunc", tm.lift(v2))
         return v
 
@@ -951,8 +1034,12 @@ class CSym(object):
         v = self.rvalue(a, env, tu)
         if op == "-":
             return self.arith("-", 0, v)
-        if op == "+":
+        if op in ("+", "__extension__"):
             return v
+        if op == "__real":
+            return v.re if isinstance(v, Cx) else v
+        if op == "__imag":
+            return v.im if isinstance(v, Cx) else 0
         if op == "!":
             c = self.truth(v)
             return (not c) if isinstance(c, bool) else tm.mk_not(c)
@@ -1005,6 +1092,10 @@ class CSym(object):
         op = n["opcode"][:-1]
         lv = self.lvalue(n["inner"][0], env, tu)
         rhs = self.rvalue(n["inner"][1], env, tu)
+        if lv[0] == "mem" and op in ("+", "-") and lv[1].arr.kind == "complex" and not self.footprint:
+            cur = self.load(lv, env)
+            self.store(lv[1], "=", self.arith(op, cur, rhs))
+            return None
         if lv[0] == "mem" and op in ("+", "-", "*", "/") and lv[1].arr.kind == "double":
             # an accumulating store: recorded as such (no read event), value of the update
             self.store(lv[1], op + "=", rhs)
@@ -1043,6 +1134,16 @@ class CSym(object):
             raise CUnsupported("arithmetic on NULL")
         if isinstance(a, Undef) or isinstance(b, Undef):
             raise CUnsupported("use of an undefined value (%s)" % (a if isinstance(a, Undef) else b).name)
+        if isinstance(a, Cx) or isinstance(b, Cx):
+            a, b = as_cx(a), as_cx(b)
+            ar = lambda o, x, y: self.arith(o, x, y)
+            if op in ("+", "-"):
+                return Cx(ar(op, a.re, b.re), ar(op, a.im, b.im))
+            if op == "*":
+                return Cx(ar("-", ar("*", a.re, b.re), ar("*", a.im, b.im)), ar("+", ar("*", a.re, b.im), ar("*", a.im, b.re)))
+            if op == "/" and as_int(b.im) == 0:
+                return Cx(ar("/", a.re, b.re), ar("/", a.im, b.re))
+            raise CUnsupported("complex operator %s" % op)
         a, b = as_int(a), as_int(b)
         conc = isinstance(a, (int, Q)) and isinstance(b, (int, Q))
         if op == "+":
@@ -1093,6 +1194,8 @@ class CSym(object):
             base = self.rvalue(n["inner"][0], env, tu)
             idx = self.rvalue(n["inner"][1], env, tu)
             if isinstance(base, Ptr):
+                if "_Complex" in n.get("type", {}).get("qualType", "") and base.arr.kind in ("raw", "void", "double"):
+                    base.arr.kind = "complex"
                 return ("mem", Ptr(base.arr, base.off + tm.lift(idx)))
             raise CUnsupported("subscript of a non-pointer")
         if k == "UnaryOperator" and n.get("opcode") == "*":
@@ -1149,6 +1252,14 @@ class CSym(object):
             key = self.canon(p.off)
             sub = arr.extra_subarrays.setdefault(key, Arr("%s[%s]" % (arr.name, tm.show(tm.lift(p.off), 30)), arr.elem_kind, arr.elem_extent, origin="param"))
             return Ptr(sub)
+        if getattr(arr, "const_values", None) is not None:
+            k = as_int(p.off)
+            if isinstance(k, int) and 0 <= k < len(arr.const_values):
+                return arr.const_values[k]
+            raise CUnsupported("read of the constant table %s at a symbolic or out-of-range index" % arr.name)
+        if arr.kind == "complex":
+            re_, im_ = self._cx_parts(arr)
+            return Cx(self.read(Ptr(re_, p.off)), self.read(Ptr(im_, p.off)))
         # store forwarding from writes of the same generic iteration / earlier completed loops
         if self.footprint and arr.kind != "int":
             self.emit("r", p)
@@ -1178,6 +1289,12 @@ class CSym(object):
                         raise CUnsupported("read of %s written under a different guard" % p.arr.name)
                     return e.val
                 if len(eq_) == len(cur_q) or any(q in tm.subterms(e.idx).values() for q in eq_):
+                    try:
+                        d_ = self.nf.rf_to_term(self.nf.nf(e.idx - p.off))
+                    except NFError:
+                        d_ = None
+                    if d_ is not None and d_.op == "c" and d_.args[0] != 0:
+                        continue          # the two indices differ by a non-zero constant
                     ok = smt.check_sat(list(self.hyps) + list(self.guards) + list(e.guards) + [tm.mk_eq(e.idx, p.off)], 3.0, use_cvc5=False)[0]
                     if ok != "unsat":
                         raise CUnsupported("cannot separate a read of %s[%s] from the earlier write %s[%s]" % (p.arr.name, tm.show(p.off, 40), e.arr.name, tm.show(e.idx, 40)))
@@ -1207,7 +1324,26 @@ class CSym(object):
             raise CUnsupported("store into an array of pointers")
         if isinstance(v, Ptr) or v is None:
             raise CUnsupported("pointer stored to memory")
+        if p.arr.kind == "complex" or isinstance(v, Cx):
+            if p.arr.kind in ("raw", "void"):
+                p.arr.kind = "complex"
+            if p.arr.kind != "complex":
+                raise CUnsupported("complex value stored into a %s array" % p.arr.kind)
+            if op not in ("=", "+=", "-="):
+                raise CUnsupported("complex compound assignment %s" % op)
+            v = as_cx(v)
+            re_, im_ = self._cx_parts(p.arr)
+            self.store(Ptr(re_, p.off), op, v.re)
+            self.store(Ptr(im_, p.off), op, v.im)
+            return
         self.emit("w", p, op, tm.lift(as_int(v)))
+
+    def _cx_parts(self, arr):
+        if not hasattr(arr, "cx_parts"):
+            arr.cx_parts = tuple(Arr("%s.%s" % (arr.name, part), "double", arr.extent, private=arr.private, origin=arr.origin) for part in ("re", "im"))
+            for a_ in arr.cx_parts:
+                a_.zeroed = getattr(arr, "zeroed", False)
+        return arr.cx_parts
 
     # ------------------------------------------------------------------ calls
     def e_CallExpr(self, n, env, tu):
@@ -1391,6 +1527,12 @@ def _m1(name):
     def f(x):
         x = as_int(x)
         if name == "sqrt":
+            if isinstance(x, (int, Q)) and x >= 0:
+                q = Q(x)
+                import math as _m
+                rn, rd_ = _m.isqrt(q.numerator), _m.isqrt(q.denominator)
+                if rn * rn == q.numerator and rd_ * rd_ == q.denominator:
+                    return as_int(Q(rn, rd_))
             return tm.mk_sqrt(tm.lift(x))
         if name == "fabs":
             return tm.mk_fn("abs", tm.lift(x))
@@ -1399,6 +1541,9 @@ def _m1(name):
 
 
 MATH = {n: _m1(n) for n in ("exp", "log", "sqrt", "fabs", "erf", "erfc", "sin", "cos", "tanh", "floor", "ceil", "tgamma", "atan", "lgamma", "cbrt", "expm1", "log1p", "sinh", "cosh", "acos", "asin")}
+MATH["creal"] = lambda z: z.re if isinstance(z, Cx) else z
+MATH["cimag"] = lambda z: z.im if isinstance(z, Cx) else 0
+MATH["conj"] = lambda z: Cx(z.re, tm.mk_neg(tm.lift(z.im))) if isinstance(z, Cx) else z
 MATH["fmax"] = lambda a, b: tm.mk_max(tm.lift(as_int(a)), tm.lift(as_int(b)))
 MATH["fmin"] = lambda a, b: tm.mk_min(tm.lift(as_int(a)), tm.lift(as_int(b)))
 MATH["pow"] = lambda a, b: tm.mk_pow(tm.lift(as_int(a)), tm.lift(as_int(b)))
